@@ -143,6 +143,8 @@ Inductive mdin :=
 Definition falsy (e : mdin) : bool :=
   match e with MdNone => true | MdMap [] => true | MdMap _ => false | MdOther tr _ => negb tr end.
 Definition is_none (e : mdin) : bool := match e with MdNone => true | _ => false end.
+(* None or an empty mapping *)
+Definition is_blank (e : mdin) : bool := match e with MdNone => true | MdMap [] => true | _ => false end.
 Definition is_other (e : mdin) : bool := match e with MdOther _ _ => true | _ => false end.
 Definition dict_tree (kv : list Tree) : Tree := L [I 6; L kv].        (* tables.md_tree of a dict *)
 Definition md_entry_tree (e : mdin) : Tree :=
@@ -156,13 +158,14 @@ Definition norm_md (md : option (list mdin)) (n_ids : nat) : option (list mdin) 
       if negb (Nat.eqb (length l) 0) && forallb falsy l && Nat.eqb (length l) n_ids then None else Some l
   end.
 
-(* _cast_metadata, table.py:674-712: all None -> None; a dict or None entry becomes a defaultdict;
-   anything else is a TableException *)
+(* _cast_metadata, table.py:674-714: no entry holds anything (None or an empty mapping) -> None,
+   as the constructor does (repair 16e406b1); a dict or None entry becomes a defaultdict; anything
+   else is a TableException *)
 Definition cast_md (md : option (list mdin)) : result (option (list Tree)) :=
   match md with
   | None => ROk None
   | Some l =>
-      if forallb is_none l then ROk None
+      if forallb is_blank l then ROk None
       else if existsb is_other l then RErr E_TABLE
       else ROk (Some (map md_entry_tree l))
   end.
